@@ -15,7 +15,9 @@ pub mod c12;
 pub mod c14;
 pub mod c15;
 pub mod c15b;
+pub mod c16b;
 pub mod c18;
+pub mod c19;
 pub mod c20;
 pub mod stateful;
 use stateful::Target;
@@ -24,7 +26,13 @@ pub fn run(ctx: &Ctx) -> Option<Report> {
     match ctx.prop.as_str() {
         "C01" => Some(stateful::run_target(ctx, Target::C01)),
         "C02" => Some(stateful::run_target(ctx, Target::C02)),
-        "C16" => Some(stateful::run_target(ctx, Target::C16)),
+        "C16" => {
+            let mut r = stateful::run_target(ctx, Target::C16);
+            let floor = r.nontrivial_floor;
+            r.merge(c16b::run(ctx));
+            r.nontrivial_floor = floor;
+            Some(r)
+        }
         "C17" => Some(stateful::run_target(ctx, Target::C17)),
         "C03" => {
             let mut r = stateful::run_target(ctx, Target::C03);
@@ -67,6 +75,7 @@ pub fn run(ctx: &Ctx) -> Option<Report> {
             Some(r)
         }
         "C18" => Some(c18::run(ctx)),
+        "C19" => Some(c19::run(ctx)),
         "C20" => Some(c20::run(ctx)),
         "C06" => {
             let mut r = stateful::run_target(ctx, Target::C06);
@@ -84,7 +93,13 @@ pub fn replay(ctx: &Ctx, case: &Value) -> Option<Report> {
     match ctx.prop.as_str() {
         "C01" => Some(stateful::replay_target(ctx, Target::C01, case)),
         "C02" => Some(stateful::replay_target(ctx, Target::C02, case)),
-        "C16" => Some(stateful::replay_target(ctx, Target::C16, case)),
+        "C16" => {
+            if case.get("half").and_then(|h| h.as_str()) == Some("c16b") {
+                Some(c16b::replay(ctx, case))
+            } else {
+                Some(stateful::replay_target(ctx, Target::C16, case))
+            }
+        }
         "C17" => Some(stateful::replay_target(ctx, Target::C17, case)),
         "C03" => {
             if case.get("ops").is_some() {
@@ -116,6 +131,7 @@ pub fn replay(ctx: &Ctx, case: &Value) -> Option<Report> {
             }
         }
         "C18" => Some(c18::replay(ctx, case)),
+        "C19" => Some(c19::replay(ctx, case)),
         "C20" => Some(c20::replay(ctx, case)),
         "C06" => {
             if case.get("ops").is_some() {
